@@ -192,6 +192,26 @@ def run(ctx):
                                                      {"gitconfig": cfg, "group": g, "extra": extra, "refs": [n.decode() for n in RC.NESTED_REFS]},
                                                      expected=ob[:600].decode("latin1") + eb[:300].decode("latin1"),
                                                      observed=oa[:600].decode("latin1") + ea[:300].decode("latin1")))
+        # ... and for symbols with capital letters (the gitconfig subsection is case-sensitive), next to a twin in lower case
+        cap_defs = [("Rel", [("i", b"refs/tags")]), ("rel", [("i", b"refs/heads")]), ("Rel.V1", [("i", b"refs/tags/v1")]),
+                    ("rel.Main", [("i", b"refs/heads/main")]), ("UPPER", [("I", RC.lit_re(b"refs/remotes/origin/main"))])]
+        cap_cfg = RC.defs_to_cfg(cap_defs)
+        s3, c3 = RC.base_scenario()
+        for n in (b"refs/heads/main", b"refs/heads/a", b"refs/tags/v1", b"refs/tags/v1.0", b"refs/remotes/origin/main", b"refs/foo"):
+            s3.refs.append((n, c3))
+        s3.compute()
+        order3 = s3.enum_gitlike([c3])
+        for g in ("Rel", "rel", "Rel.V1", "rel.Main", "UPPER"):
+            for extra in (["-v"], ["--json"], ["-v", "--show-refs"]):
+                ra, oa, ea = eng.run_fake(s3, order3, ["--refgroup", g] + extra + ["--no-progress"], config=cap_cfg, extra_args=[])[:3]
+                rb, ob, eb = eng.run_fake(s3, order3, ["--include", "@" + g] + extra + ["--no-progress"], config=cap_cfg, extra_args=[])[:3]
+                ea = b"".join(l for l in ea.splitlines(True) if not l.startswith(b"Flag --refgroup has been deprecated"))
+                res.case(("capital", g, tuple(extra)), True)
+                if ra != rb or oa != ob or (extra[-1] == "--show-refs" and ea != eb):
+                    res.violations.append(vlib.Violation("--refgroup G and --include @G give different output for a refgroup whose symbol has capital letters",
+                                                         {"gitconfig": cap_cfg, "group": g, "extra": extra},
+                                                         expected={"rc": rb, "out": ob[:400].decode("latin1") + eb[:300].decode("latin1")},
+                                                         observed={"rc": ra, "out": oa[:400].decode("latin1") + ea[:300].decode("latin1")}))
         # real git: a sizer.* value has the effect of its option through EVERY way git offers to supply configuration —
         # the repository's config file, the global file, `git -c`, and GIT_CONFIG_COUNT/KEY/VALUE in the caller's environment
         import os, shutil, subprocess
